@@ -44,3 +44,10 @@ pub(super) fn parse_sas_hex_string(pending_token_text: &str) -> Result<String, E
         .decode(bytes.as_ref(), DecoderTrap::Strict)
         .map_err(|_| ErrorKind::InvalidHexStringConstant)
 }
+
+#[cfg(kani)]
+pub(crate) mod verif {
+    #[allow(clippy::wildcard_imports)]
+    use super::*;
+    include!(concat!(env!("SAS_LEXER_VERIF_DIR"), "/harness/hex.rs"));
+}
